@@ -157,6 +157,14 @@ package blockwise
 //@   trusted
 //@   ensures err == nil ==> size >= offset
 //
+// asksForBlock2: true only if the request carries a Block2 option that decodes to exactly that block number
+// (D20: the tail of a download whose earlier blocks are not held is delivered only to a request that asked
+// for that very block).
+//@ func asksForBlock2(req *pool.Message, num int64) (b bool)
+//@   requires req != nil
+//@   ensures [only-for-that-block] b ==> callCount(GetOptionUint32) == 1 && callArg(GetOptionUint32, 0, 0) == req && callArg(GetOptionUint32, 0, 1) == 23 && callRes(GetOptionUint32, 0, 1) == nil && callCount(DecodeBlockOption) == 1 && callArg(DecodeBlockOption, 0, 0) == callRes(GetOptionUint32, 0, 0) && callRes(DecodeBlockOption, 0, 3) == nil && callRes(DecodeBlockOption, 0, 1) == num
+//@   ensures [that-block-is-granted] callCount(DecodeBlockOption) == 1 && callRes(DecodeBlockOption, 0, 3) == nil && callRes(DecodeBlockOption, 0, 1) == num ==> b
+//
 //@ func (*BlockWise) processReceivedMessage(w *responsewriter.ResponseWriter, r *pool.Message, maxSzx SZX, next func(w *responsewriter.ResponseWriter, r *pool.Message), blockType message.OptionID, sizeType message.OptionID) (err error)
 //@   requires b != nil && w != nil && r != nil && maxSzx <= 7 && b.expiration > 0 && b.expiration < 4611686018427387904 && b.receivingMessagesCache != nil && b.receivingMessagesCache.Map != nil && b.sendingMessagesCache != nil && b.sendingMessagesCache.Map != nil
 //@   modifies anything
@@ -170,6 +178,8 @@ package blockwise
 //@   ensures [other-blocks-change-nothing] called(getPayloadFromCachedReceivedMessage) && callRes(getPayloadFromCachedReceivedMessage, 0, 2) == nil && callRes(DecodeBlockOption, 0, 1) * callRes(Size, 0, 0) != callRes(getPayloadFromCachedReceivedMessage, 0, 1) ==> notCalled(copyToPayloadFromOffset) && notCalled(next)
 //@   ensures [complete-delivered-once] called(copyToPayloadFromOffset) && callRes(copyToPayloadFromOffset, 0, 1) == nil && !callRes(DecodeBlockOption, 0, 2) && err == nil ==> callCount(next) == 1 && callArg(next, 0, 1) == callRes(getCachedReceivedMessage, 0, 0) && called(Delete) && callSeq(Delete, 0) < callSeq(next, 0) && notCalled(SetMessage)
 //@   ensures [lone-final-block-of-upload-refused] called(DecodeBlockOption) && callRes(DecodeBlockOption, 0, 3) == nil && blockType == 27 && !callRes(DecodeBlockOption, 0, 2) && callRes(DecodeBlockOption, 0, 1) != 0 && notCalled(getCachedReceivedMessage) ==> err != nil && notCalled(next)
+//@   ensures [lone-final-block-of-download-refused] called(DecodeBlockOption) && callRes(DecodeBlockOption, 0, 3) == nil && blockType == 23 && !callRes(DecodeBlockOption, 0, 2) && callRes(DecodeBlockOption, 0, 1) != 0 && notCalled(getCachedReceivedMessage) && !(called(asksForBlock2) && callRes(asksForBlock2, 0, 0)) ==> err != nil && notCalled(next)
+//@   ensures [asks-about-this-block] called(asksForBlock2) ==> callArg(asksForBlock2, 0, 0) == callRes(getSentRequest, 0, 0) && callArg(asksForBlock2, 0, 1) == callRes(DecodeBlockOption, 0, 1)
 //@   ensures [incomplete-not-delivered] called(getCachedReceivedMessage) && callRes(DecodeBlockOption, 0, 2) ==> notCalled(next)
 //@   ensures [asks-for-next-block] called(getCachedReceivedMessage) && callRes(DecodeBlockOption, 0, 2) && err == nil ==> callCount(SetMessage) == 1 && callCount(EncodeBlockOption) == 1 && callArg(EncodeBlockOption, 0, 0) == min(callRes(DecodeBlockOption, 0, 0), maxSzx) && callArg(EncodeBlockOption, 0, 2)
 //@   ensures [failure-forgets-transfer] err != nil && called(getCachedReceivedMessage) && callRes(getCachedReceivedMessage, 0, 2) == nil ==> called(Delete)
